@@ -56,9 +56,28 @@ type Run struct {
 	BufSize    int     `json:"bufsize"`
 	Conns      int     `json:"conns"`
 	DurationMs int     `json:"duration_ms"`
+	// Trickle: this many of the connections do not have unlimited data ready; they write one byte every 20 ms,
+	// so their reads return fewer bytes than the batch the limiters were asked for (short reads)
+	Trickle int `json:"trickle"`
+}
+
+// special runs that are always part of the list: both limiters with the total limiter binding, with and without
+// trickling companions
+var specials = []*Run{
+	{Rate: 10240, Burst: 100, TotalRate: 10240, TotalBurst: 100, BufSize: 512, Conns: 4, DurationMs: 900},
+	{Rate: 1 << 20, Burst: 0, TotalRate: 100 * 1024, TotalBurst: 4096, BufSize: 32 << 10, Conns: 3, DurationMs: 800},
+	{Rate: 0, Burst: 0, TotalRate: 20480, TotalBurst: 2048, BufSize: 512, Conns: 3, Trickle: 1, DurationMs: 1200},
+	{Rate: 102400, Burst: 4096, TotalRate: 20480, TotalBurst: 1024, BufSize: 512, Conns: 4, Trickle: 2, DurationMs: 1200},
+	{Rate: 2000, Burst: 400, TotalRate: 0, TotalBurst: 0, BufSize: 32, Conns: 2, Trickle: 1, DurationMs: 900},
+	{Rate: 0, Burst: 0, TotalRate: 2000, TotalBurst: 400, BufSize: 32, Conns: 2, Trickle: 1, LatencyMs: 50, DurationMs: 1000},
 }
 
 func genRun(seed int64, i int) *Run {
+	if i < len(specials) {
+		ru := *specials[i]
+		ru.Index = i
+		return &ru
+	}
 	r := fw.Rand(seed, "c17", i)
 	rates := []float64{1024, 10 * 1024, 100 * 1024, 1 << 20, 10 << 20}
 	ru := &Run{Index: i}
@@ -90,6 +109,9 @@ func genRun(seed int64, i int) *Run {
 	}
 	ru.Conns = []int{1, 1, 2, 4, 16}[r.Intn(5)]
 	ru.DurationMs = 400 + r.Intn(1600)
+	if ru.Conns > 1 && r.Intn(3) == 0 {
+		ru.Trickle = 1 + r.Intn(ru.Conns-1)
+	}
 	return ru
 }
 
@@ -188,7 +210,18 @@ func execute(c *fw.Ctx, ru *Run) {
 			all = append(all, sample{t, n})
 			allMu.Unlock()
 		}
-		_, _ = cs.client.Write(cs.stream) // everything is readable at once
+		if k < ru.Trickle {
+			go func(cs *connState) {
+				for off := 0; off < len(cs.stream); off++ {
+					if _, err := cs.client.Write(cs.stream[off : off+1]); err != nil {
+						return
+					}
+					time.Sleep(20 * time.Millisecond)
+				}
+			}(cs)
+		} else {
+			_, _ = cs.client.Write(cs.stream) // everything is readable at once
+		}
 		conns[k] = cs
 	}
 	for _, cs := range conns {
@@ -277,7 +310,7 @@ func execute(c *fw.Ctx, ru *Run) {
 	}
 	c.Obs("reads_observed", int64(reads))
 	c.Obs("runs", 1)
-	c.Case(fw.Hash(ru.Rate, ru.Burst, ru.TotalRate, ru.TotalBurst, ru.LatencyMs, ru.BufSize, ru.Conns), reads >= 3, func() any {
+	c.Case(fw.Hash(ru.Rate, ru.Burst, ru.TotalRate, ru.TotalBurst, ru.LatencyMs, ru.BufSize, ru.Conns, ru.Trickle), reads >= 3, func() any {
 		return map[string]any{"run": ru, "reads": reads}
 	})
 }
